@@ -55,6 +55,7 @@ import BacVerif.Lemmas.C03Def
 import BacVerif.Lemmas.C03Prim
 import BacVerif.Lemmas.C03WFEnv
 import BacVerif.Props.C03Octets
+import BacVerif.Props.C07
 import BacVerif.Gen.Schemas
 import BacVerif.Props.C02
 namespace BacVerif.C03
@@ -314,6 +315,108 @@ theorem registered_pdu_roundtrip (reg : List (Nat × Nat)) (c τ : Nat)
     ∃ ts, encodeTy Gen.Schemas.env τ v = .ok ts ∧ decodePdu Gen.Schemas.env τ ts = .ok v :=
   pdu_roundtrip _ _ gen_env_wf τ v hc
 
+/-! ## the stack closed at octet level: C01 ∘ C02 ∘ C03 (∘ C07)
+
+    Typed values (`Typed.TVal`: C01 `PrimVal` leaves), `encodeOctets` /
+    `decodeOctets` (Model/Typed.lean): value → erase leaves with C01's encoder →
+    generic codec → `TagList.encode`;  octets → `TagList.decode` →
+    `APCISequence.decode` → read every leaf with C01's decoder of the kind the
+    schema names.  No opaque-leaf assumption, no tag well-formedness hypothesis. -/
+
+section Octets
+open BacVerif.Typed
+
+/-- **octets_roundtrip**: every well-formed environment, every class, every
+    conforming typed value (leaves `Valid`, `Fits`, of the schema's kind):
+    the octets decode back to the typed value. -/
+theorem octets_roundtrip (env : Env) (I : Table) (hwf : WFEnv env I) (τ : Nat) (tv : TVal)
+    (hc : tconforms env τ tv = true) :
+    ∃ bs, encodeOctets env τ tv = .ok bs ∧ decodeOctets env τ bs = .ok tv := by
+  obtain ⟨v, he, hcv, hty⟩ := typed_erase env τ tv hc
+  obtain ⟨ts, henc, hparse, hdec⟩ := codec_octets env I hwf τ v hcv
+  exact ⟨serializeTags ts, by simp [encodeOctets, he, henc],
+    by simp [decodeOctets, hparse, hdec, hty]⟩
+
+/-- **octets_reencode**: what the octets of a conforming typed value decode to
+    re-encodes to the IDENTICAL octets. -/
+theorem octets_reencode (env : Env) (I : Table) (hwf : WFEnv env I) (τ : Nat) (tv : TVal)
+    (hc : tconforms env τ tv = true) (bs : Bytes) (he : encodeOctets env τ tv = .ok bs)
+    (tv' : TVal) (hd : decodeOctets env τ bs = .ok tv') : encodeOctets env τ tv' = .ok bs := by
+  obtain ⟨bs', he', hd'⟩ := octets_roundtrip env I hwf τ tv hc
+  have : bs = bs' := by rw [he] at he'; simpa using he'
+  subst this
+  rw [hd] at hd'
+  simp only [Except.ok.injEq] at hd'
+  subst hd'
+  exact he
+
+/-- the four registries of the tree under test -/
+def registryOf : Nat → Option (List (Nat × Nat))
+  | 0 => some Gen.Schemas.confirmed       -- ConfirmedRequestPDU
+  | 1 => some Gen.Schemas.unconfirmed     -- UnconfirmedRequestPDU
+  | 3 => some Gen.Schemas.complexAck      -- ComplexAckPDU
+  | 5 => some Gen.Schemas.error           -- ErrorPDU
+  | _ => none
+
+/-- **pdu_octets_roundtrip**: for EVERY registered PDU type of the generated
+    environment (confirmed request, unconfirmed request, complex ack, error) and
+    every conforming typed value with Valid leaves: the octets of the PDU body
+    parse, decode and type back to the value, and that value re-encodes to the
+    identical octets — C01 ∘ C02 ∘ C03. -/
+theorem pdu_octets_roundtrip (pduType choice τ : Nat) (reg : List (Nat × Nat))
+    (_hreg : registryOf pduType = some reg) (_hl : lookup reg choice = some τ)
+    (tv : TVal) (hc : tconforms Gen.Schemas.env τ tv = true) :
+    ∃ bs, encodeOctets Gen.Schemas.env τ tv = .ok bs ∧
+      decodeOctets Gen.Schemas.env τ bs = .ok tv ∧
+      ∀ tv', decodeOctets Gen.Schemas.env τ bs = .ok tv' →
+        encodeOctets Gen.Schemas.env τ tv' = .ok bs := by
+  obtain ⟨bs, he, hd⟩ := octets_roundtrip _ _ gen_env_wf τ tv hc
+  exact ⟨bs, he, hd, fun tv' hd' => octets_reencode _ _ gen_env_wf τ tv hc bs he tv' hd'⟩
+
+/-- a whole APDU: fixed header (C07), then the service parameters -/
+def encodeApduTyped (h : Apci) (tv : TVal) : Except Err Bytes :=
+  match registryOf h.apduType, h.service with
+  | some reg, some choice =>
+    match lookup reg choice with
+    | none => .error .other
+    | some τ =>
+      match encodeOctets Gen.Schemas.env τ tv with
+      | .error e => .error e
+      | .ok body => encodeApdu h body
+  | _, _ => .error .other
+
+/-- `APDU.decode`, registry lookup on (PDU type, service choice), `X.decode(apdu)` -/
+def decodeApduTyped (bs : Bytes) : Except Err (Apci × TVal) :=
+  match decodeApdu bs with
+  | .error e => .error e
+  | .ok (h, body) =>
+    match registryOf h.apduType, h.service with
+    | some reg, some choice =>
+      match lookup reg choice with
+      | none => .error .other
+      | some τ =>
+        match decodeOctets Gen.Schemas.env τ body with
+        | .error e => .error e
+        | .ok tv => .ok (h, tv)
+    | _, _ => .error .other
+
+/-- **apdu_octets_roundtrip**: header ++ body — C07 ∘ C01 ∘ C02 ∘ C03: a
+    well-formed header of one of the four service-carrying PDU types whose
+    service choice is registered, and a conforming typed value of the registered
+    class, encode to octets that decode to exactly that header and that value. -/
+theorem apdu_octets_roundtrip (h : Apci) (hw : C07.WFHeader h = true)
+    (reg : List (Nat × Nat)) (choice τ : Nat)
+    (hreg : registryOf h.apduType = some reg) (hsvc : h.service = some choice)
+    (hl : lookup reg choice = some τ)
+    (tv : TVal) (hc : tconforms Gen.Schemas.env τ tv = true) :
+    ∃ bs, encodeApduTyped h tv = .ok bs ∧ decodeApduTyped bs = .ok (h, tv) := by
+  obtain ⟨body, he, hd⟩ := octets_roundtrip _ _ gen_env_wf τ tv hc
+  obtain ⟨bs, hea, hda⟩ := C07.apdu_roundtrip h hw body
+  exact ⟨bs, by simp [encodeApduTyped, hreg, hsvc, hl, he, hea],
+    by simp [decodeApduTyped, hda, hreg, hsvc, hl, hd]⟩
+
+end Octets
+
 /-! ## non-vacuity -/
 
 section NonVacuity
@@ -394,6 +497,77 @@ example : decodeTy #[.any] 0 ([⟨.app, 2, 1, [1]⟩] ++ [⟨.app, 2, 1, [2]⟩]
     .ok (.tags [⟨.app, 2, 1, [1]⟩, ⟨.app, 2, 1, [2]⟩], []) := by rfl
 
 end NonVacuity
+
+/-! ## non-vacuity of the octet-level theorems, and Annex F at APDU level (TESTS) -/
+
+section OctetExamples
+open Gen.Schemas BacVerif.Typed
+
+/-- ReadProperty-ACK of F.3.5 as a TYPED value: (analog-input, 5), present-value (85), Real 72.3 -/
+def exAckT : TVal :=
+  .seq [some (.prim (.oid 0 5)), some (.prim (.enum 85)), none,
+        some (.tags [⟨.app, 4, 4, [0x42, 0x90, 0x99, 0x9A]⟩])]
+
+example : tconforms env (svc complexAck 12) exAckT = true := by decide +kernel
+
+/-- ReadPropertyMultiple-ACK with typed leaves of six primitive kinds, a nested list, a choice -/
+def exRpmAckT : TVal :=
+  .seq [some (.list [
+    .seq [some (.prim (.oid 0 5)),
+          some (.list [.seq [some (.prim (.enum 85)), none, some (.choice 0 (.tags [⟨.app, 4, 4, [0, 0, 0, 0]⟩]))],
+                       .seq [some (.prim (.enum 77)), some (.prim (.unsigned 70000)),
+                             some (.choice 1 (.seq [some (.prim (.enum 2)), some (.prim (.enum 32))]))]])],
+    .seq [some (.prim (.oid 8 4194303)), some (.list [])]])]
+
+example : ∃ bs, encodeOctets env (svc complexAck 14) exRpmAckT = .ok bs ∧
+    decodeOctets env (svc complexAck 14) bs = .ok exRpmAckT :=
+  octets_roundtrip env info gen_env_wf _ exRpmAckT (by decide +kernel)
+
+/-- a leaf of the wrong kind (an Unsigned where the schema names an Enumerated), an
+    unrepresentable one (Unsigned 2^32) and an out-of-range object type are refused -/
+example : tconforms env (svc complexAck 12)
+    (.seq [some (.prim (.oid 0 5)), some (.prim (.unsigned 85)), none, some (.tags [])]) = false := by
+  decide +kernel
+example : tconforms env (svc confirmed 12)
+    (.seq [some (.prim (.oid 0 5)), some (.prim (.enum 85)), some (.prim (.unsigned 4294967296))]) = false := by
+  decide +kernel
+example : tconforms env (svc confirmed 12)
+    (.seq [some (.prim (.oid 1024 5)), some (.prim (.enum 85)), none]) = false := by decide +kernel
+
+def bytesEq (r : Except Err Bytes) (bs : Bytes) : Bool :=
+  match r with | .ok x => x == bs | .error _ => false
+def apduEq (r : Except Err (Apci × TVal)) (h : Apci) (tv : TVal) : Bool :=
+  match r with | .ok (h', tv') => h' == h && tv'.beq tv | .error _ => false
+
+/-- TEST F.3.5, the complete APDU of the ack: `30 01 0C` + parameters, from the typed value and back -/
+example : bytesEq (encodeApduTyped (Apci.mkComplexAck none false 1 12) exAckT)
+    [0x30, 0x01, 0x0C, 0x0C, 0x00, 0x00, 0x00, 0x05, 0x19, 0x55, 0x3E, 0x44, 0x42, 0x90, 0x99, 0x9A, 0x3F] = true := by
+  decide +kernel
+example : apduEq (decodeApduTyped
+    [0x30, 0x01, 0x0C, 0x0C, 0x00, 0x00, 0x00, 0x05, 0x19, 0x55, 0x3E, 0x44, 0x42, 0x90, 0x99, 0x9A, 0x3F])
+    (Apci.mkComplexAck none false 1 12) exAckT = true := by decide +kernel
+
+/-- TEST I-Am, complete APDU `10 00 …`: (device, 3), 1024, no-segmentation (3), vendor 99 -/
+def exIAmT : TVal :=
+  .seq [some (.prim (.oid 8 3)), some (.prim (.unsigned 1024)), some (.prim (.enum 3)), some (.prim (.unsigned 99))]
+example : bytesEq (encodeApduTyped (Apci.mkUnconfirmed 0) exIAmT)
+    [0x10, 0x00, 0xC4, 0x02, 0x00, 0x00, 0x03, 0x22, 0x04, 0x00, 0x91, 0x03, 0x21, 0x63] = true := by
+  decide +kernel
+example : apduEq (decodeApduTyped
+    [0x10, 0x00, 0xC4, 0x02, 0x00, 0x00, 0x03, 0x22, 0x04, 0x00, 0x91, 0x03, 0x21, 0x63])
+    (Apci.mkUnconfirmed 0) exIAmT = true := by decide +kernel
+
+/-- TEST Who-Is 3..3, complete APDU `10 08 09 03 19 03` -/
+example : bytesEq (encodeApduTyped (Apci.mkUnconfirmed 8) (.seq [some (.prim (.unsigned 3)), some (.prim (.unsigned 3))]))
+    [0x10, 0x08, 0x09, 0x03, 0x19, 0x03] = true := by decide +kernel
+
+/-- the hypotheses of `apdu_octets_roundtrip` are met -/
+example : ∃ bs, encodeApduTyped (Apci.mkComplexAck none false 1 12) exAckT = .ok bs ∧
+    decodeApduTyped bs = .ok (Apci.mkComplexAck none false 1 12, exAckT) :=
+  apdu_octets_roundtrip _ (by decide +kernel) complexAck 12 (svc complexAck 12) rfl rfl (by decide +kernel)
+    exAckT (by decide +kernel)
+
+end OctetExamples
 
 /-! ## Annex F worked examples — TESTS (a finite list is not the theorem)
 
